@@ -24,10 +24,11 @@ theorem findCrlf_lt {b : Bytes} {i : Nat} (h : findCrlf b = some i) : i + 2 ≤ 
     have := ih hj
     simp at *; omega
 
-/-- a CRLF that only appears after appending starts at or after the last old byte; if at it, that byte is CR -/
+/-- a CRLF that only appears after appending starts at or after the last old byte; if at it, the
+    pair straddles the seam: the last old byte is CR and the first new byte is LF -/
 theorem findCrlf_append_of_none {b d : Bytes} {i : Nat}
     (hb : findCrlf b = none) (h : findCrlf (b ++ d) = some i) :
-    b.length ≤ i ∨ (i + 1 = b.length ∧ b.getLast? = some CR) := by
+    b.length ≤ i ∨ (i + 1 = b.length ∧ b.getLast? = some CR ∧ d.head? = some LF) := by
   fun_induction findCrlf b generalizing i with
   | case1 => simp
   | case2 a =>
@@ -36,7 +37,7 @@ theorem findCrlf_append_of_none {b d : Bytes} {i : Nat}
     | cons x d =>
       simp only [List.cons_append, List.nil_append, findCrlf] at h
       split at h
-      · rename_i hc; simp at h; subst h; right; simp [hc.1]
+      · rename_i hc; simp at h; subst h; right; simp [hc.1, hc.2]
       · simp only [Option.map_eq_some_iff] at h
         obtain ⟨j, _, rfl⟩ := h; left; simp
   | case3 a b rest hc => simp [findCrlf, hc] at hb
@@ -45,9 +46,9 @@ theorem findCrlf_append_of_none {b d : Bytes} {i : Nat}
     simp only [List.cons_append, findCrlf, hc, if_false, Option.map_eq_some_iff] at h
     obtain ⟨j, hj, rfl⟩ := h
     have := ih hb (i := j) (by simpa using hj)
-    rcases this with h1 | ⟨h1, h2⟩
+    rcases this with h1 | ⟨h1, h2, h3⟩
     · left; simp at *; omega
-    · right; constructor
+    · right; refine ⟨?_, ?_, h3⟩
       · simp at *; omega
       · simpa [List.getLast?_cons_cons] using h2
 
